@@ -347,3 +347,22 @@ def matches(p, env, interp):
             if not c.admits(val):
                 return False
     return True
+
+
+def straightline_state(f, B, rec, maxlen=14):
+    """symbolic state (as kept by a SymRec) at the end of block B, over the straight-line run of blocks that ends in B"""
+    chain = [B]
+    while True:
+        ps_ = [p for p in f.preds(chain[0]) if not f.blocks[p]["cleanup"]]
+        if len(ps_) != 1 or f.blocks[ps_[0]]["term"]["k"] not in ("goto", "call", "assert", "drop") or ps_[0] in chain or len(chain) > maxlen:
+            break
+        chain.insert(0, ps_[0])
+    st = {}
+    for cbk in chain:
+        for s_ in f.blocks[cbk]["stmts"]:
+            rec.stmt(s_, st)
+        tc = f.blocks[cbk]["term"]
+        if cbk != B and tc["k"] == "call":
+            fk = tc["f"].get("fn")
+            rec.call(cbk, tc, ((fk.get("resolved") or fk["key"]) if fk else ""), st)
+    return st
